@@ -88,6 +88,12 @@ unsafe impl Exfiltrator for WithRawSiginfo {
     }
 
     fn init(&self, slot: &Self::Storage, _: c_int) {
+        // The slot may have been initialized already by a previous attempt to register the same
+        // signal that failed later on (the registration itself returned an error). Keep the
+        // channel in such case.
+        if !slot.0.load(Ordering::Acquire).is_null() {
+            return;
+        }
         let new = Box::default();
         let old = slot.0.swap(Box::into_raw(new), Ordering::Release);
         // We leak the pointer on purpose here. This is invalid state anyway and must not happen,
